@@ -84,3 +84,29 @@ def cat(paths, out):
 def cert_hash_b64(pem_path):
     der = run(["x509", "-in", pem_path, "-outform", "DER"])
     return base64.b64encode(hashlib.sha256(der).digest()).decode()
+
+
+OCSP_EXT = "basicConstraints=critical,CA:FALSE\nkeyUsage=critical,digitalSignature\nextendedKeyUsage=OCSPSigning\nsubjectKeyIdentifier=hash\nauthorityKeyIdentifier=keyid\n"
+
+
+def serial_of(pem):
+    return run(["x509", "-in", pem, "-noout", "-serial"]).decode().strip().split("=")[1]
+
+
+def ocsp_response(d, name, ca_crt, ca_key, responder_crt, responder_key, about_crt, status, ndays=7):
+    """an OCSP response for `about_crt` with the given status (good | revoked | unknown), signed by the responder"""
+    idx = os.path.join(d, name + ".index")
+    ser = serial_of(about_crt)
+    subj = "/CN=x"
+    if status == "good":
+        open(idx, "w").write("V\t350101000000Z\t\t%s\tunknown\t%s\n" % (ser, subj))
+    elif status == "revoked":
+        open(idx, "w").write("R\t350101000000Z\t240101000000Z\t%s\tunknown\t%s\n" % (ser, subj))
+    else:
+        open(idx, "w").write("")
+    open(idx + ".attr", "w").write("unique_subject = no\n")
+    req = os.path.join(d, name + ".req")
+    resp = os.path.join(d, name + ".resp")
+    run(["ocsp", "-issuer", ca_crt, "-cert", about_crt, "-no_nonce", "-reqout", req])
+    run(["ocsp", "-index", idx, "-CA", ca_crt, "-rsigner", responder_crt, "-rkey", responder_key, "-reqin", req, "-respout", resp, "-ndays", str(ndays)])
+    return resp
